@@ -374,9 +374,17 @@ func literalSubstringOfPath(c *Ctx, v ssa.Value, depth int) bool {
 		return true
 	case *ssa.Parameter:
 		return x.Type().String() == "string" && (acceptedParams[x] || strings.Contains(strings.ToLower(x.Name()), "path"))
+	case *ssa.Extract:
+		// before/after of strings.Cut, the remainder of strings.CutPrefix/CutSuffix: substrings of the first operand
+		if call, ok := x.Tuple.(*ssa.Call); ok {
+			ci := describeCall(&call.Call)
+			if ci.Pkg == "strings" && strings.HasPrefix(ci.Name, "Cut") && x.Type().String() == "string" {
+				return literalSubstringOfPath(c, call.Call.Args[0], depth-1)
+			}
+		}
 	case *ssa.Call:
 		ci := describeCall(&x.Call)
-		if ci.Pkg == "strings" && (ci.Name == "TrimPrefix" || ci.Name == "TrimSuffix") {
+		if ci.Pkg == "strings" && (ci.Name == "TrimPrefix" || ci.Name == "TrimSuffix" || ci.Name == "TrimLeft" || ci.Name == "TrimRight" || ci.Name == "Trim") {
 			return literalSubstringOfPath(c, x.Call.Args[0], depth-1)
 		}
 		if sc := x.Call.StaticCallee(); sc != nil && c.inRepo(sc) && sc.Signature.Results().Len() == 1 {
